@@ -260,3 +260,69 @@ func (e *Engine) checkNeverCalls(s *State, fn *ssa.Function, c *FuncContract) {
 		e.obligations[len(e.obligations)-1].Result = &SolverResult{Status: "sat", Solver: "static-call-analysis", Output: why}
 	}
 }
+
+// checkSpawnNeverWrites: "spawn_never_writes [tag] T.f, ..." - no goroutine started by the function (go statements,
+// including closures, directly in its body) may write the listed fields: the function itself stays their only writer.
+func (e *Engine) checkSpawnNeverWrites(s *State, fr *Frame, fn *ssa.Function, c *FuncContract) {
+	spec := c.Flags["spawn_never_writes"]
+	if spec == "" {
+		return
+	}
+	tag := ""
+	if strings.HasPrefix(spec, "[") {
+		if k := strings.Index(spec, "]"); k > 0 {
+			tag = spec[1:k]
+			spec = strings.TrimSpace(spec[k+1:])
+		}
+	}
+	forbidden := newWriteSet()
+	env := e.mkEnv(s, fr, nil, nil)
+	for _, item := range strings.Split(spec, ",") {
+		e.resolveAssign(s, env, strings.TrimSpace(item), forbidden)
+	}
+	var bad []string
+	n := 0
+	for _, b := range fn.Blocks {
+		for _, in := range b.Instrs {
+			g, ok := in.(*ssa.Go)
+			if !ok {
+				continue
+			}
+			n++
+			var callee *ssa.Function
+			switch v := g.Common().Value.(type) {
+			case *ssa.Function:
+				callee = v
+			case *ssa.MakeClosure:
+				callee, _ = v.Fn.(*ssa.Function)
+			}
+			if g.Common().IsInvoke() || callee == nil {
+				bad = append(bad, "dynamic go call at "+posString(e.fset, in.Pos()))
+				continue
+			}
+			ws := newWriteSet()
+			e.funcWrites(callee, ws, nil)
+			if ws.All {
+				bad = append(bad, "goroutine at "+posString(e.fset, in.Pos())+" has an unbounded write set ("+ws.Why+")")
+				continue
+			}
+			for k := range forbidden.Heap {
+				if ws.Heap[k] {
+					bad = append(bad, "goroutine at "+posString(e.fset, in.Pos())+" may write "+k)
+				}
+			}
+		}
+	}
+	sort.Strings(bad)
+	goal := TTrue
+	why := fmt.Sprintf("%d go statements, none writes the listed fields", n)
+	if len(bad) > 0 {
+		goal = TFalse
+		why = strings.Join(bad, "; ")
+	}
+	name := fmt.Sprintf("%s#frame:%s", e.rootKey, tag)
+	s.addObligation("frame", name, tag, fn.Pos(), goal, "goroutines started here never write "+spec+": "+why)
+	if len(bad) > 0 {
+		e.obligations[len(e.obligations)-1].Result = &SolverResult{Status: "sat", Solver: "static-frame-analysis", Output: why}
+	}
+}
